@@ -110,8 +110,18 @@ def unit(a):
     return (a[0] / n, a[1] / n, a[2] / n)
 
 
+def sub(a, b):
+    return (a[0] - b[0], a[1] - b[1], a[2] - b[2])
+
+
+def xcross(a, b):
+    """a x b for nearly equal unit vectors, computed as a x (b - a): the difference is (almost) exact,
+    so the result keeps full relative precision where the naive cross product cancels."""
+    return cross(a, sub(b, a))
+
+
 def ang(a, b):
-    return math.atan2(norm(cross(a, b)), dot(a, b))
+    return math.atan2(norm(xcross(a, b)), dot(a, b))
 
 
 def tolatlon(v):
@@ -147,17 +157,17 @@ def gc_bearing(p, q):
 def gc_point_segment(p, a, b):
     """nearest point on the minor arc a-b to p: (distance m, t in [0,1], (lat, lon))."""
     A, B, P = vec(a), vec(b), vec(p)
-    n = cross(A, B)
+    n = xcross(A, B)
     if norm(n) < 1e-15:
         return gc_dist(p, a), 0.0, tuple(a[:2])
     n = unit(n)
-    k = dot(P, n)
+    k = dot(sub(P, A), n)  # = P.n because A.n = 0
     Q = (P[0] - k * n[0], P[1] - k * n[1], P[2] - k * n[2])
     if norm(Q) < 1e-15:
         Q = A
     Q = unit(Q)
     ab = ang(A, B)
-    aq = math.atan2(dot(cross(A, Q), n), dot(A, Q))
+    aq = math.atan2(dot(xcross(A, Q), n), dot(A, Q))
     if 0 <= aq <= ab:
         return R * ang(P, Q), aq / ab, tolatlon(Q)
     da, db = R * ang(P, A), R * ang(P, B)
